@@ -185,3 +185,74 @@ func c03RenderedAgainUnderSettings(res *Result) {
 		}
 	}
 }
+
+// c03OtherContextsFirst: a template renders with context B what a new engine renders with context B, also after the
+// same engine rendered it with context A: nothing a render worked out from A's values (arguments of filters inside a
+// chain, of functions and tests, bounds, defaults, names of templates) answers for B.
+func c03OtherContextsFirst(res *Result) {
+	res.Hist["stream:other-contexts-first"]++
+	support := map[string]string{"pa": "<A {{ v }}>", "pb": "<B {{ v }}>", "lib": "{% macro m(x, y = dflt) %}({{ x }}/{{ y }}){% endmacro %}"}
+	tpls := []string{
+		"{{ name|default(placeholder)|upper }}", "{{ name|default(placeholder) }}", "{{ s|replace({(from): to})|upper }}", "{{ xs|join(sep)|upper }}", "{{ xs|slice(start, n)|join(',') }}",
+		"{{ xs|slice(start, n)|reverse|join(sep) }}", "{{ s|split(sep)|join('+') }}", "{{ s|trim(ch)|upper }}", "{{ num|round(prec)|abs }}", "{{ num|number_format(prec, sep)|upper }}",
+		"{{ xs|merge(more)|join(sep)|lower }}", "{{ max(num, n)|abs }}", "{{ range(start, n)|join(sep)|upper }}", "{{ s is same as(to) ? 'y' : 'n' }}", "{{ (num is divisible by(n)) ? 'y' : 'n' }}",
+		"{{ s starts with from ? 'y' : 'n' }}", "{{ from in s ? 'y' : 'n' }}", "{% include tpl %}", "{% include tpl with {'v': name|default(placeholder)|upper} %}", "{{ xs[start]|default(placeholder)|upper }}",
+		"{% for p in xs %}{{ name|default(p)|upper }},{% endfor %}", "{% for i in start..n %}{{ i }}{% endfor %}", "{% import 'lib' as l %}{{ l.m(name|default(placeholder)|upper) }}{{ l.m(s) }}",
+		"{{ s|date(fmt)|upper }}", "{{ attribute(mp, key)|default(placeholder)|upper }}", "{{ mp[key]|default(placeholder)|upper }}", "{{ (cond ? s : to)|upper|trim(ch) }}", "{{ s ~ sep ~ to|upper }}",
+		"{% set q = name|default(placeholder)|upper %}{{ q }}", "{% if name|default(placeholder)|upper == 'PB' %}b{% else %}other{% endif %}", "{% apply upper %}{{ name|default(placeholder)|lower }}{% endapply %}",
+		"{{ xs|first|default(placeholder)|upper }}", "{{ xs|sort|join(sep)|upper }}", "{{ xs|batch(n)|length }}", "{{ s|slice(start)|upper|default(placeholder) }}", "{{ s|e|replace({(from): to}) }}",
+	}
+	ctxA := func() map[string]interface{} {
+		return map[string]interface{}{"name": nil, "placeholder": "pa", "s": "xaxbx", "from": "a", "to": "T", "xs": []interface{}{"c", "a", "b"}, "sep": "-", "start": 0, "n": 2, "ch": "x", "num": -12.345,
+			"prec": 1, "more": []interface{}{"m"}, "tpl": "pa", "v": "va", "dflt": "da", "fmt": "Y", "mp": map[string]interface{}{"k1": nil, "k2": "two"}, "key": "k1", "cond": true}
+	}
+	ctxB := func() map[string]interface{} {
+		return map[string]interface{}{"name": nil, "placeholder": "pb", "s": "ybyay", "from": "b", "to": "U", "xs": []interface{}{"z", "y"}, "sep": "+", "start": 1, "n": 3, "ch": "y", "num": 7.25,
+			"prec": 2, "more": []interface{}{"n", "o"}, "tpl": "pb", "v": "vb", "dflt": "db", "fmt": "m", "mp": map[string]interface{}{"k1": "one", "k2": nil}, "key": "k2", "cond": false}
+	}
+	mk := func(src string) *twig.Engine {
+		e := twig.New()
+		for n, s := range support {
+			e.RegisterString(n, s)
+		}
+		if e.RegisterString("t", src) != nil {
+			return nil
+		}
+		return e
+	}
+	obs := func(e *twig.Engine, ctx map[string]interface{}) string {
+		out, err := e.Render("t", ctx)
+		if err != nil {
+			return "error"
+		}
+		return "out:" + out
+	}
+	for _, src := range tpls {
+		for _, order := range []string{"A then B", "B then A", "A, A, B, A"} {
+			fresh := mk(src)
+			if fresh == nil {
+				break
+			}
+			used := mk(src)
+			first, second := ctxA, ctxB
+			if order == "B then A" {
+				first, second = ctxB, ctxA
+			}
+			want := obs(fresh, second())
+			obs(used, first())
+			if order == "A, A, B, A" {
+				obs(used, first())
+				obs(used, second())
+				want = obs(mk(src), first())
+				second = first
+			}
+			res.Evaluations++
+			got := obs(used, second())
+			if got != want {
+				res.add(Finding{Kind: "oracle", Where: "other-contexts-first", Case: Case{"stream": "other-contexts-first", "tpl": src, "order": order}, Expected: want, Observed: got,
+					Detail: "the same engine rendered the template with another context before; a new engine renders the expected output"})
+				break
+			}
+		}
+	}
+}
